@@ -21,6 +21,7 @@ from hypothesis import strategies as st
 from ..core import Suite, Ctx, triage_exception
 from .. import tg, gen
 from ..codec import short
+from ..oracles import outcome
 from ..errtree import tree_stats
 from .c07 import multi_fault_cases
 
@@ -136,9 +137,20 @@ def check(case: t.Any, ctx: Ctx) -> None:
             ctx.fail('render-deterministic', nd.kind, f"{ident}; a deep copy of the tree renders differently")
 
     # complete
-    def walk(n: t.Any, path: t.Tuple[str, ...], in_sum: bool) -> t.Optional[str]:
+    UNKNOWN = object()
+
+    def walk(n: t.Any, path: t.Tuple[str, ...], in_sum: bool, val: t.Any = UNKNOWN) -> t.Optional[str]:
         ctx.evaluated()
         if isinstance(n, SumErrorNode):
+            if not in_sum and val is not UNKNOWN:
+                # the value the union was given (not one of its parts, which a member's leaf may hold) is the offending value
+                try:
+                    line = f"Instead got `{val}` of type `{type(val).__name__}`"
+                except Exception:
+                    line = None
+                if line is not None and line not in text:
+                    return (f"the union at {'.'.join(path) or '<root>'} was given {short(val, 80)}, but no line {line[:100]!r} "
+                            f"is in the text")
             for c in n.children:
                 r = walk(c, path, True)
                 if r:
@@ -163,7 +175,15 @@ def check(case: t.Any, ctx: Ctx) -> None:
                 if find_in_order(text, [*path, str(f)]) is not None:
                     return f"unexpected field {f!r} under {'.'.join(path) or '<root>'} is not named"
             for (k, c) in n.children.items():
-                r = walk(c, (*path, str(k)), False)
+                sub = UNKNOWN
+                a = n.actual
+                try:
+                    # (a child of a mapping node may report the *key* or the value: only positions of a sequence are unambiguous)
+                    if isinstance(a, (list, tuple)) and isinstance(k, int) and 0 <= k < len(a):
+                        sub = a[k]
+                except Exception:
+                    sub = UNKNOWN
+                r = walk(c, (*path, str(k)), False, sub)
                 if r:
                     return r
             return None
@@ -182,7 +202,7 @@ def check(case: t.Any, ctx: Ctx) -> None:
                 return f"leaf at {'.'.join(path) or '<root>'} has a cause whose message {msg[:80]!r} is not in the text"
         return None
 
-    r = walk(tree, (), False)
+    r = walk(tree, (), False, v)
     if r is not None:
         ctx.fail('render-complete', nd.kind, f"{ident}; {r}\n--- text ---\n{text[:600]}")
         return
@@ -247,12 +267,64 @@ def check_batch(batch: t.Any, ctx: Ctx) -> None:
                 return
 
 
+# ---- offending values that are expensive or impossible to print -----------------------------------------------------------------
+#
+# "Rendering ... never raises": the offending value is shown with str(); an int of more than 4300 digits (legitimate interchange
+# data: JSON and YAML hold integers of any size) makes str() raise ValueError in CPython >= 3.11.  The case holds the exponent, not
+# the number (the replay file stays small and printable).
+
+_HUGE_TYPES = ['str', 'List[str]', 'Dict[str, str]', 'Tuple[str, int]', 'float', 'Optional[str]', "Literal['a']", 'Set[str]', 'struct', 'dataclass']
+_HUGE_PLACES = ['itself', 'in-list', 'in-dict-value', 'in-nested-list', 'as-dict-key']
+
+
+def huge_cases(shard: int, nshards: int) -> t.Iterator[t.Any]:
+    i = 0
+    for ty in _HUGE_TYPES:
+        for place in _HUGE_PLACES:
+            for exp in (4299, 5000, 20000):
+                for sign in (1, -1):
+                    if i % nshards == shard:
+                        yield [ty, place, exp, sign]
+                    i += 1
+
+
+def check_huge(case: t.Any, ctx: Ctx) -> None:
+    import pane
+    (tname, place, exp, sign) = case
+    if 'cls' not in _HUGE_CACHE:
+        _HUGE_CACHE['cls'] = type('HugeHolder', (pane.PaneBase,), {'__annotations__': {'a': str, 'b': t.List[str]}})
+    T = {'struct': {'a': str, 'b': int}, 'dataclass': _HUGE_CACHE['cls']}.get(tname) or eval(tname, {**vars(t)})
+    n = sign * 10**exp
+    v = {'itself': n, 'in-list': ['a', n], 'in-dict-value': {'a': n, 'b': n}, 'in-nested-list': [[n]], 'as-dict-key': {n: 'a'}}[place]
+    ctx.label(f"digits:{exp + 1}", place)
+    ctx.nontrivial(exp + 1 > 4300)
+    ctx.evaluated()
+    (k, e) = outcome(lambda: pane.from_data(v, T))
+    if k == 'ok':
+        return         # (float accepts ints below its range: not this check's subject)
+    if k != 'ce':
+        return         # (C04's subject)
+    for (what, f) in (('str', str), ('str again', str)):
+        (k2, text) = outcome(lambda: f(e))
+        if k2 != 'ok':
+            ctx.fail('render-total', f"huge-int:{type(text).__name__}", f"from_data(<{'-' if sign < 0 else ''}10**{exp} {place}>, {tname}) raised ConvertError, and "
+                     f"str() of it raised {type(text).__name__}: {str(text)[:150]}")
+            return
+    if not isinstance(text, str) or 'xpected' not in text:
+        ctx.fail('render-total', 'huge-int:no-expectation', f"from_data(<10**{exp} {place}>, {tname}): the message names no expectation: {text[:200]!r}")
+
+
+_HUGE_CACHE: t.Dict[str, t.Any] = {}
+
+
 def suites(tier: str) -> t.List[Suite]:
     big = tier == 'thorough'
     leaves = 8 if big else 4
     return [
         Suite('render', check, strategy=lambda: multi_fault_cases(gen.all_type_specs(leaves)), examples=8000 if big else 600,
               budget_s=480 if big else 40, render=gen.render_case),
+        Suite('huge-ints', check_huge, cases=huge_cases, exhaustive=True, budget_s=120,
+              render=lambda c: {'type': c[0], 'where': c[1], 'value': f"{'-' if c[3] < 0 else ''}10**{c[2]}"}),
         Suite('across-hash-seeds', check_batch, strategy=lambda: batch_cases(gen.all_type_specs(leaves)), examples=40 if big else 4,
               budget_s=300 if big else 30, render=lambda b: {'batch_of': len(b), 'first': gen.render_case(b[0])}),
     ]
